@@ -189,6 +189,13 @@ partial def undestined (j : MJson) : List Lean.Json :=
   | .arr xs => (jlist xs).flatMap undestined
   | _ => []
 
+/-- the same, but not descending into the root's `options` (ia / multi-page titles there are COPIES of headings of the
+    body: the copy shares the one diagnostic of the reference it was copied from) -/
+def undestinedBody (j : MJson) : List Lean.Json :=
+  match j with
+  | .obj kvs => (jkvs kvs).flatMap (fun (k, v) => if k == "options" then [] else undestined v)
+  | _ => undestined j
+
 /-- tags occurring in the document -/
 partial def tagsIn (j : MJson) : List String :=
   match j with
@@ -213,6 +220,7 @@ def wfjsonOp (j : Lean.Json) : Except String Lean.Json := do
     ("path", match bad with | some (p, _) => .str p | none => .null),
     ("why", match bad with | some (_, w) => .str w | none => .null),
     ("undestined", .arr (undestined m).toArray),
+    ("undestined_body", .arr (undestinedBody m).toArray),
     ("unpinned", jstrs (unpinned m))])
 
 def serializeOp (j : Lean.Json) : Except String Lean.Json := do
